@@ -25,7 +25,7 @@ from simkit.world import sub_rng, HarnessError
 from . import builders as B
 
 ID = "C03"
-RULE = ("one world per seed: model (7) x grid (uniform / fixed / geometric, small) x list-returning sampling method x "
+RULE = ("one world per seed: model (7) x grid (uniform / fixed / geometric / probability-step, small) x list-returning sampling method x "
         "engine variant (fixed-level up to level 1-3 | adaptive | CouplingSDE fixed-level) x product (1-4 dates or "
         "jump-time mode) x n paths; variates from the seeded generators, coupling uniforms boundary-targeted in the "
         "probing step. non-trivial = >=1 level transition and >=1 odd fine increment probed; distinct = hash(model, grid, "
@@ -37,7 +37,7 @@ STUB = ["coupling uniform scripted at the RNG seam during the probing step", "cl
         "gmpy2.qdiv, tqdm"]
 ASSUMPTIONS = ["the model's own mass() is the reference for cell masses (C09/C12 trusted); rates from create_q_vector (C01)",
                "the n-d (Levy copula) coupling is not covered by this check",
-               "grids whose cell boundary is not the arithmetic middle (probability-step grids) are not generated"]
+               "cell boundaries are the grid's own middle() (arithmetic, or equal-probability for probability-step grids)"]
 TIERS = {
     "quick": {"worlds": 260, "wall": 520, "shrink_budget": 40,
               "required_probes": ["c03.level_transition", "c03.odd_increment_probed", "c03.even_increment_seen",
@@ -115,8 +115,9 @@ def _install():
 def generate(seed, tier="quick"):
     r = sub_rng(seed, "c03.scenario")
     model = r.choice(["hem", "hem_lowint", "hem_nosigma", "merton", "cgmy02", "cgmy12", "vg"])
-    gk = r.choice(["uniform", "uniform", "fixed", "geometric"])
+    gk = r.choice(["uniform", "uniform", "fixed", "geometric", "probstep"])
     grid = {"uniform": {"kind": "uniform", "h": r.choice([0.05, 0.1, 0.08])},
+            "probstep": {"kind": "probstep", "h": r.choice([0.05, 0.1]), "pstep": r.choice([0.1, 0.2, 0.3])},
             "fixed": {"kind": "fixed", "h": r.choice([0.05, 0.1]), "n": r.choice([6, 10, 16])},
             "geometric": {"kind": "geometric", "h": r.choice([0.05, 0.1]), "n": r.choice([3, 5, 8])}}[gk]
     variant = r.choice(["fixed", "fixed", "adaptive", "sde"])
@@ -220,6 +221,11 @@ def execute(wd, sc):
                 add("C03.c|fine deterministic path of the pair is not the one of the fine chain|" + cls, {"level": lvl})
         # ---- b: telescoping sum over all fine states --------------------------------------------------------
         mass = cp.fine_process.model.mass
+
+        def mid(a_, b_):
+            # the grid's own cell boundary (arithmetic middle, or the equal-probability point of a probability-step grid)
+            return float(cp.grid.middle(float(a_), float(b_)))
+
         q_f = np.array(create_q_vector(cp.fine_process.model.levy_triplet.nu, cp.grid), dtype=float)
         q_c = before["q"]
         if q_c is not None:
@@ -231,8 +237,8 @@ def execute(wd, sc):
                     agg[pos // 2] += q_f[pos]
                 else:
                     x = axis[pos]
-                    ml_ = 0.5 * (axis[pos - 1] + x)
-                    mr_ = 0.5 * (x + axis[pos + 1])
+                    ml_ = mid(axis[pos - 1], x)
+                    mr_ = mid(x, axis[pos + 1])
                     vr, vl_ = mass(x, mr_), mass(ml_, x)
                     pr = vr / (vl_ + vr) if (vl_ + vr) > 0 else 0.5
                     agg[(pos + 1) // 2] += q_f[pos] * pr
@@ -259,7 +265,7 @@ def execute(wd, sc):
             for pos in g.sample(odd, min(len(odd), 8)):
                 inc = pos - origin
                 x = axis[pos]
-                ml_, mr_ = 0.5 * (axis[pos - 1] + x), 0.5 * (x + axis[pos + 1])
+                ml_, mr_ = mid(axis[pos - 1], x), mid(x, axis[pos + 1])
                 vr, vl_ = mass(x, mr_), mass(ml_, x)
                 if not (vl_ + vr) > 0:
                     continue
